@@ -198,8 +198,8 @@ Definition tr_set_voltage (ch : nat) (value : Q) (st : tstate) : list cmd * tsta
         mkT (t_label st) (t_iters st) (aset Nat.eqb ch [] (t_active st)) (t_deps st) (aset Nat.eqb ch value (t_plain st)) (t_stable st))
   else ([], st).
 
-(* _TranslationState._set_indexed_voltage *)
-Definition tr_set_indexed (ch : nat) (base : Q) (factors : list Q) (st : tstate) : res (list cmd * tstate) :=
+(* _TranslationState._set_indexed_voltage, the part after the all-factors-zero test *)
+Definition tr_set_indexed_nz (ch : nat) (base : Q) (factors : list Q) (st : tstate) : res (list cmd * tstate) :=
   let k := mk_key factors in
   let new := (base, t_iters st) in
   match alookup ck_eqb (ch, k) (t_deps st) with
@@ -214,6 +214,11 @@ Definition tr_set_indexed (ch : nat) (base : Q) (factors : list Q) (st : tstate)
                 then [CInc ch inc k] else [] in
       Ok (cs, mkT (t_label st) (t_iters st) (aset Nat.eqb ch k (t_active st)) (aset ck_eqb (ch, k) new (t_deps st)) (t_plain st) (t_stable st))
   end.
+
+(* _TranslationState._set_indexed_voltage: a voltage whose factors are all zero (DepKey(())) is a plain voltage
+   (repair of `zero-factor-aliases-plain`) *)
+Definition tr_set_indexed (ch : nat) (base : Q) (factors : list Q) (st : tstate) : res (list cmd * tstate) :=
+  if key_eqb (mk_key factors) [] then Ok (tr_set_voltage ch base st) else tr_set_indexed_nz ch base factors st.
 
 (* _add_hold_node: channels in index order, then the Wait *)
 Fixpoint tr_hold_chs (ch : nat) (vs : list (Q * option (list Q))) (st : tstate) : res (list cmd * tstate) :=
